@@ -225,7 +225,8 @@ pub enum Step {
     /// it): kind 0 bad magic, 1 truncated file, 2 wrong page size requested, 3 repair aborted from
     /// the callback (on a crash image), 4 the arg-th backend call of the open fails, 5 read-only open
     /// of a file that needs repair, 6 read-only open of a clean file extended by whole pages, 7 normal
-    /// open of such a file, 8 the backend's own close() fails at the next clean close; then reopen normally
+    /// open of such a file, 8 the backend's own close() fails at the next clean close, 9 read-only open of a clean file with altered
+    /// commit-slot selector bits / one altered slot byte; then reopen normally
     #[serde(alias = "FailingOpen")]
     FailingOpen { kind: u8, arg: u64 },
 }
